@@ -16,7 +16,7 @@ def sh(cmd, **kw):
 def main():
     sid, props = sys.argv[1], sys.argv[2].split(",")
     tier = sys.argv[4] if len(sys.argv) > 4 and sys.argv[3] == "--tier" else "quick"
-    patch = os.path.join(ROOT, "seeded", sid, "patch.diff")
+    patch = sid if sid.endswith(".diff") else os.path.join(ROOT, "seeded", sid, "patch.diff")
     assert sh("git -C /repo status --porcelain").stdout.strip() == "", "/repo not clean"
     r = sh(f"git -C /repo apply {patch}")
     if r.returncode != 0:
@@ -54,7 +54,7 @@ def main():
         shutil.rmtree(evbak, ignore_errors=True)
         sh(f"cd {ROOT} && /venv/bin/python tools/translate.py")  # regenerate Gen/ from the restored tree
     assert sh("git -C /repo status --porcelain").stdout.strip() == "", "/repo not clean after revert"
-    ef = os.path.join(ROOT, "seeded", sid, f"eval_{tier}.json")
+    ef = (sid[:-5] + f".eval_{tier}.json") if sid.endswith(".diff") else os.path.join(ROOT, "seeded", sid, f"eval_{tier}.json")
     prev = json.load(open(ef)) if os.path.exists(ef) else {}
     prev.update(out)   # one entry per check, latest run wins
     json.dump(prev, open(ef, "w"), indent=1, sort_keys=True)
